@@ -40,6 +40,7 @@ type HarnessRun struct {
 	timedOut    bool
 	engineErr   string
 	queries     int
+	retries     int
 	solverTime  time.Duration
 	wall        time.Duration
 	t0          time.Time
@@ -191,6 +192,9 @@ func (p *pool) worker(wid int, wg *sync.WaitGroup) {
 				continue
 			}
 			s.TimeoutS = h.Meta.TimeoutS
+			if v, err := strconv.Atoi(os.Getenv("VERIF_QUERY_TIMEOUT")); err == nil && v > 0 {
+				s.TimeoutS = v // per-query solver timeout in seconds (an unknown answer is retried once with 4x)
+			}
 			if d := os.Getenv("VERIF_SMTLOG"); d != "" {
 				f, _ := os.Create(filepath.Join(d, fmt.Sprintf("%s-w%d.smt2", h.Meta.Name, wid)))
 				s.Log = f
@@ -240,6 +244,7 @@ func (p *pool) worker(wid int, wg *sync.WaitGroup) {
 			if p.finished(fh) {
 				fh.mu.Lock()
 				fh.queries += st.s.Queries
+				fh.retries += st.s.Retries
 				fh.solverTime += st.s.Time
 				fh.mu.Unlock()
 				st.s.Close()
@@ -675,7 +680,11 @@ func cmdCheck(args []string) int {
 			samples = append(samples, map[string]interface{}{"harness": h.Meta.Name, "witness": s.Reach, "inputs": compactStream(s.Stream)})
 		}
 		if *verbose {
-			fmt.Printf("  %-46s paths=%-6d queries=%-7d solver=%.1fs wall=%.1fs reached=%v\n", h.Meta.Name, sh.Stats.Paths, h.queries, h.solverTime.Seconds(), h.wall.Seconds(), sh.Reached)
+			rt := ""
+			if h.retries > 0 {
+				rt = fmt.Sprintf(" retried=%d", h.retries)
+			}
+			fmt.Printf("  %-46s paths=%-6d queries=%-7d solver=%.1fs wall=%.1fs%s reached=%v\n", h.Meta.Name, sh.Stats.Paths, h.queries, h.solverTime.Seconds(), h.wall.Seconds(), rt, sh.Reached)
 		}
 	}
 	if len(samples) == 0 {
